@@ -76,7 +76,12 @@ structure Case where
   cache : String := "fresh"
   tag : String := ""
   wit : String := ""
-  clockMs : Nat := 0
+  /-- `[wtime, btime, winc, binc, movetime]` of the case (virtual clock) -/
+  wtime : Option Nat := none
+  btime : Option Nat := none
+  winc : Option Nat := none
+  binc : Option Nat := none
+  movetime : Option Nat := none
   vdiv : Nat := 0
   raw : String := ""
 
@@ -143,7 +148,8 @@ def parseCase (rest : String) : Case :=
     | some x => (x.drop (name.length + 1)).toString | none => ""
   { fen := fen, moves := if moves.isEmpty then [] else moves.splitOn " ",
     depth := (t.headD "1").toNat!, nodes := (kv "nodes").toNat?, stop := (kv "stop").toNat!, cache := kv "cache",
-    tag := kv "tag", wit := kv "wit", clockMs := (kv "clock").toNat?.getD 0, vdiv := (kv "vdiv").toNat?.getD 0, raw := rest }
+    tag := kv "tag", wit := kv "wit", wtime := (kv "wtime").toNat?, btime := (kv "btime").toNat?, winc := (kv "winc").toNat?, binc := (kv "binc").toNat?,
+    movetime := (kv "movetime").toNat?, vdiv := (kv "vdiv").toNat?.getD 0, raw := rest }
 
 /-- drop `time T` and `nps X`, normalise blanks -/
 def canonInfo (line : String) : String :=
@@ -269,7 +275,8 @@ def finishCase (s : SSt) (rline : String) : SSt := Id.run do
   -- info lines: syntax, depths 1,2,3.. in order, PV legal, all depths when nothing limits the search
   let mut expectDepth := 1
   for line in s.infos do
-    if !validInfoSyntax line then s := s.report "spec" "C14" "info-syntax" s!"line=[{line}]"
+    -- (a root without a legal move is outside C14 / C09: only the model comparison applies to it)
+    if !legalNames.isEmpty && !validInfoSyntax line then s := s.report "spec" "C14" "info-syntax" s!"line=[{line}]"
     let toks := (line.splitOn " ").filter (· ≠ "")
     let d := (toks.getD 2 "0").toNat!
     if d != expectDepth then s := s.report "spec" "C14" "info-depth-order" s!"expected={expectDepth} line=[{line}]"
@@ -300,6 +307,9 @@ def finishCase (s : SSt) (rline : String) : SSt := Id.run do
     match (t.getD 0 "-").toNat?, (t.getD 1 "-").toNat? with
     | some vms, some timer =>
       if vms ≥ timer then s := s.report "spec" "C13" "cache-write-after-clock-expired" s!"virtual_ms={vms} timer={timer}"
+      -- the allowance the engine gave itself must come out of the mover's own clock and increment
+      let (own, inc) := if sn.pos.turn == .white then (c.wtime.getD 0, c.winc.getD 0) else (c.btime.getD 0, c.binc.getD 0)
+      if timer > own + inc then s := s.report "spec" "C09" "allowance-exceeds-own-clock" s!"timer={timer} own_clock={own} own_increment={inc}"
     | _, _ => pure ()
   -- root score = plain negamax when the cache is neutralised and nothing limits the search
   if c.cache == "off" && unlimited && !legalNames.isEmpty then
@@ -359,8 +369,10 @@ def finishCase (s : SSt) (rline : String) : SSt := Id.run do
     return s
   -- ---------- correspondence with the executable model ----------
   let tt0 : Table Ply := if c.cache == "keep" then s.tt else {}
-  let lim : GoLimits := if c.vdiv > 0 then { nodes := c.nodes, wtime := some c.clockMs, btime := some c.clockMs } else { nodes := c.nodes }
-  let res := chessSearch board lim (some c.depth) (fun k => if c.vdiv > 0 then k / c.vdiv else 0) c.stop (c.cache == "off") tt0
+  let lim : GoLimits := if c.vdiv > 0 then { nodes := c.nodes, wtime := c.wtime, btime := c.btime, winc := c.winc, binc := c.binc, movetime := c.movetime } else { nodes := c.nodes }
+  -- the virtual clock advances once per `limits_exceeded`; with `movetime` the model reads the clock twice there (same virtual instant)
+  let perCall := if c.movetime.isSome then 2 else 1
+  let res := chessSearch board lim (some c.depth) (fun k => if c.vdiv > 0 then (k / perCall) / c.vdiv else 0) c.stop (c.cache == "off") tt0
   let mInfos := res.infos.map renderInfo
   let iInfos := s.infos.toList.map canonInfo
   if mInfos != iInfos then
@@ -376,7 +388,7 @@ def finishCase (s : SSt) (rline : String) : SSt := Id.run do
     s := s.report "model" "C13,C12,C16" "cache-writes" s!"impl_count={iw.length} model_count={mW.length} first_diff_index={firstDiff} impl=[{iw.getD firstDiff "-"}] model=[{mW.getD firstDiff "-"}]"
   if res.st.writes.any (·.afterAbort) then
     s := s.report "model" "C13" "model-write-after-abort" ""
-  let mR := s!"nodes={res.st.nodes} seldepth={res.st.seldepth} best={match res.st.bestMove with | some m => moveFields m | none => "-"} score={match res.st.bestScore with | some x => toString x | none => "-"} polls={res.st.polls} clockreads={if c.vdiv > 0 then toString res.st.clockReads else "-"} ttsize={res.st.tt.size} ttsum={hex64 (ttSum res.st.tt)}"
+  let mR := s!"nodes={res.st.nodes} seldepth={res.st.seldepth} best={match res.st.bestMove with | some m => moveFields m | none => "-"} score={match res.st.bestScore with | some x => toString x | none => "-"} polls={res.st.polls} clockreads={if c.vdiv > 0 then toString ((res.st.clockReads + perCall - 1) / perCall) else "-"} ttsize={res.st.tt.size} ttsum={hex64 (ttSum res.st.tt)}"
   let iR := " ".intercalate (rt.filter fun x => !x.startsWith "root=")
   if mR != iR then
     s := s.report "model" "C16,C11,C12" "counters" s!"impl=[{iR}] model=[{mR}]"
